@@ -181,9 +181,10 @@ def run(chk):
     chk.assumptions = ['C01_roundtrip/C01_interop carry the hypothesis that json.loads inverts the concrete '
                        'printer on JSON-able values (library behaviour; sampled by the correspondence)',
                        'top-level numeric payloads are outside the domain (wire-format limitation, C01_number_payload_refuted)']
-    chk.prove()
+    chk.prove(targets=['Check/C01JsonCheck.v'])
 
     cases, meta = [], []
+    json_pairs = []
     for i in range(n_pkts):
         t, data, ns, pid = gen_packet(rng)
         rec = RecJson()
@@ -207,6 +208,7 @@ def run(chk):
         rec2 = RecJson()
         P2 = packet_class(rec2)
         _, dec_term = obs_decode(P2, frames[0], frames[1:])
+        json_pairs.extend((t_, r_) for t_, ok_, r_ in rec2.table if ok_)
         cases.append('(RT %s %s %s %s %s %s %s %s %s)' % (
             cZ(t), pv(data), copt(ns, cstr), copt(pid, cZ), copt(binary, coqio.cbool),
             pv(frames[0]), clist([pv(a) for a in frames[1:]]), table_term(rec2.table), dec_term))
@@ -255,6 +257,27 @@ def run(chk):
         chk.count(1, key, {'kind': 'dec', 'payload': repr(payload)[:100], 'obs': dec_term[:160]} if i < 3 else None)
         chk.dist('dec ' + (cls if p is None else 'ok'))
 
+    # the concrete JSON parser of the unconditional round-trip theorem against the real json.loads,
+    # on the JSON texts produced by the implementation's own encoder
+    seen, jl = set(), []
+    for text, val in json_pairs:
+        if text in seen:
+            continue
+        seen.add(text)
+        try:
+            jl.append('(%s, (Ok %s))' % (cstr(text), pv(val)))
+        except TypeError:
+            pass
+    jcodes, jerrors = coqio.eval_cases('c01_json', 'From VT Require Import Check.C01JsonCheck.', '',
+                                       'str * Res pv', jl, 'jl_eval', shard=500)
+    chk.extra['json_parser_texts_compared'] = len(jl)
+    for e in jerrors:
+        chk.broken_obligation('case evaluation failed: ' + e)
+    if jcodes:
+        idx = sorted(jcodes)[0]
+        chk.broken_obligation('Codec/JsonParse.v json_loads disagrees with engineio.json.loads on %s' % jl[idx][:200])
+        chk.violation('c01-json-parser-correspondence', 'the concrete JSON parser and json.loads disagree on printer output',
+                      {'case': jl[idx]}, no_input=True)
     codes, errors = coqio.eval_cases('c01', IMPORTS, '', 'c01case', cases, 'c01_eval')
     chk.traces_validated = len(cases)
     for e in errors:
